@@ -15,6 +15,7 @@ import (
 	"sort"
 	"strconv"
 	"strings"
+	"sync"
 
 	"diagonal.works/b6"
 	"github.com/golang/geo/s2"
@@ -411,12 +412,24 @@ func Take(w b6.World, p Probes) *Dump {
 				}
 				return idList(ids, false)
 			})
+			// the features delivered by the search iterator (not re-fetched by id)
+			guard(d, "findf "+nq.Name, func() string {
+				var rows []string
+				fs := w.FindFeatures(nq.Query)
+				for fs.Next() {
+					rows = append(rows, RenderFeature(fs.Feature()))
+				}
+				return strconv.Itoa(len(rows)) + " features #" + strconv.FormatUint(core.HashString(strings.Join(rows, "\n")), 16)
+			})
 		}
 	}
 	if p.What&Each != 0 {
 		guard(d, "each", func() string {
 			var rows []string
+			var mu sync.Mutex
 			err := w.EachFeature(func(f b6.Feature, g int) error {
+				mu.Lock()
+				defer mu.Unlock()
 				rows = append(rows, f.FeatureID().String()+"#"+strconv.FormatUint(core.HashString(RenderFeature(f)), 16))
 				return nil
 			}, &b6.EachFeatureOptions{Goroutines: 1})
